@@ -91,6 +91,8 @@ func (in *Interp) vfCall(fr *frame, fn *ssa.Function, args []Value, pos token.Po
 			in.sched.schedule("vf.Yield", nil)
 		}
 		return nil
+	case "TimerFires":
+		return ci(in.sched.timerFires)
 	case "WaitAll":
 		s := in.sched
 		me := s.cur
